@@ -138,7 +138,11 @@ def observe(R, rec, outpath):
              after=dict(exp=ae, got=C.proj_block(blocks.get(ae['name']))),
              tree=C.proj_block(blocks.get(rec['name'])) if rec.get('name') else dict(C.NOTREE),
              ign=rec.get('ign', []), specdiags=rec.get('specdiags', []),
+             hasref=False, refpart='', refdup=False, reftree=dict(C.NOTREE),
              fatal=dict(checked=False, exited=False, ndiag=0))
+    if rec.get('ref'):
+        rb, rexc, _, _ = R.parse(rec['ref']['text'], FILE, l2)
+        o.update(hasref=True, refpart=rec['ref']['part'], refdup=bool(rec['ref']['dup']), reftree=C.proj_block(rb))
     if rec.get('fatal'):
         o['fatal'], err = run_scanner_main(R, comments, outpath)
         if err:
@@ -171,12 +175,26 @@ def build(R, rng, cases, nfuzz, nfatal):
         rd = C.render(case, sub, lay)
         ign = {}
         for part, aid in case['ign']:
+            if aid == C.DUP_ID:
+                continue        # same NAME as an annotation the part rightly has: judged by the deep comparison below
             tp = 'id' if part == 'id' else sub.pname_exp(part) if part in sub.pnames else part
             ign.setdefault(tp, []).append(sub.ann(part, aid)[2])
+        # a rejected CONTINUATION line: reference = the same block cut off just before that line (the part's
+        # annotations, options included, must be what they were then)
+        ref = None
+        part = 'id'
+        for k, l in enumerate(case['lines']):
+            if l['k'] == 'ident':
+                part = 'id'
+            elif l['k'] in ('param', 'tag') and l['name'] not in ('attributes', 'renameto'):
+                part = l['name']
+            if l['k'] == 'text' and l['anns'] and l['af'] in ('unbal', 'dbl', 'empty', 'stray') and case['open'] == 'alone':
+                tp = 'id' if part == 'id' else sub.pname_exp(part) if part in sub.pnames else part
+                ref = dict(part=tp, text=lay['eol'].join(rd.src[:rd.rel[k]] + [lay['pre'] + '*/']), dup=C.DUP_ID in l['anns'])
         nfaults = case['nf']
         recs.append(dict(id='f%d' % ci, stream='fault', text=rd.text, name=sub.ident_exp, alone=case['alone'] and case['open'] != 'opentext',
                          single=(nfaults == 1), open=case['open'], close=case['close'], lines=case['lines'], faults=case['faults'],
-                         ign=[dict(part=p, names=v) for p, v in sorted(ign.items())], specdiags=case['specdiags'],
+                         ign=[dict(part=p, names=v) for p, v in sorted(ign.items())], specdiags=case['specdiags'], ref=ref,
                          before=good_block(R, rng, pool, 'B%d' % ci), after=good_block(R, rng, pool, 'A%d' % ci),
                          l1=rng.randrange(1, 400), gap=rng.randrange(1, 6), fatal=(n % max(1, len(cases) // nfatal) == 0)))
         n += 1
@@ -229,7 +247,7 @@ def run():
             if not ck.quick and not os.environ.get('VERIF_CB_DEV'):
                 jobs.append(('mc', ex.submit(ck.tlc_mc, 'CommentBlockMC', 'CommentBlock_fixed_fault.cfg', workers=min(6, NCPU), timeout=12000,
                                              label='the implementation layer as the repaired code would be (per-annotation positions): DiagAtFault without tolerance')))
-            for name in ('fx', 'fxu', 'fxv'):       # exhaustive: every single-fault placement in small models; unknown / kv / deprecated spelling x continuation lines
+            for name in ('fx', 'fxu', 'fxv', 'fxd', 'fxe', 'fxr'):     # fxd/fxe/fxr: parentheses faults (also behind a repeated annotation) on continuation lines of identifier / @param / Returns       # exhaustive: every single-fault placement in small models; unknown / kv / deprecated spelling x continuation lines
                 jobs.append(('x', ex.submit(export, ck, name, min(3, NCPU))))
             jobs.append(('x', ex.submit(export, ck, 'fpsim', min(3, NCPU), 'num=%d' % (120 if ck.quick else 800))))   # malformed annotation fields among several annotations
             jobs.append(('x', ex.submit(export, ck, 'fsim', min(3, NCPU), 'num=%d' % (330 if ck.quick else 2500))))
